@@ -578,4 +578,73 @@ example : ∃ s, Reach intMax s ∧ (peek intMax s.h).toOption.map (·.2) = some
 -- given op by op by `Heap.push_spec / pop_spec / remove_spec / decreaseKey_spec` (multiset deltas).
 example {cmp : Cmp K} {h : Heap K} (hI : Inv cmp h) : h.n = (flats h.roots).length := hI.size
 
+/-! ### draining the heap: `while heap: yield heap.pop()` (how `bounds.sort` and `smallest` / `largest` read it)
+
+  `pop_is_min` is a statement about ONE extraction.  Its closure over the whole drain loop: from every heap that
+  satisfies the invariant (hence from every reachable heap, `reachable_inv`) the loop performs exactly `len(heap)`
+  pops, none of them fails, the heap is empty afterwards, and the items come out as a permutation of the live items in
+  non-decreasing key order. -/
+
+/-- `DrainsTo cmp h out`: popping `h` until it is empty succeeds at every step and yields `out` (identity, key) -/
+inductive DrainsTo (cmp : Cmp K) : Heap K → List (Nat × K) → Prop
+  | done {h : Heap K} : h.n = 0 → DrainsTo cmp h []
+  | step {h h' : Heap K} {i : Nat} {k : K} {out : List (Nat × K)} :
+      h.n ≠ 0 → pop cmp h = .ok (h', i) → (i, k) ∈ live h → DrainsTo cmp h' out → DrainsTo cmp h ((i, k) :: out)
+
+theorem drainsTo_length {cmp : Cmp K} {h : Heap K} {out : List (Nat × K)} (hI : Inv cmp h) (T : Total cmp)
+    (d : DrainsTo cmp h out) : out.length = h.n := by
+  induction d with
+  | done h0 => simp [h0]
+  | @step h h' i k out hn hp _ _ ih =>
+    obtain ⟨hI', k', hperm, _⟩ := pop_is_min T hI hp
+    have := ih hI'
+    have hl := hperm.length_eq
+    rw [size_eq_live hI, hl, List.length_cons, List.length_cons, this, size_eq_live hI']
+
+/-- **heap sort**: the drain loop terminates after `len(heap)` successful pops with the live items in
+    non-decreasing key order (no later item has a strictly smaller key than an earlier one). -/
+theorem drain_sorted {cmp : Cmp K} (T : Total cmp) : ∀ (n : Nat) (h : Heap K), Inv cmp h → h.n = n →
+    ∃ out : List (Nat × K), DrainsTo cmp h out ∧ out.Perm (live h) ∧
+      out.Pairwise (fun a b => cmp.lt b.2 a.2 = false) ∧ out.length = n
+  | 0, h, hI, h0 => by
+    have hl : live h = [] := List.eq_nil_of_length_eq_zero (by rw [← size_eq_live hI]; exact h0)
+    exact ⟨[], .done h0, by rw [hl], List.Pairwise.nil, rfl⟩
+  | n + 1, h, hI, hn => by
+    have hne : h.n ≠ 0 := by omega
+    obtain ⟨⟨h', i, hp⟩, _⟩ := (pop_peek_defined T hI).2 hne
+    obtain ⟨hI', k, hperm, hmin⟩ := pop_is_min T hI hp
+    have hlen : h'.n = n := by
+      have := hperm.length_eq
+      rw [List.length_cons, ← size_eq_live hI, ← size_eq_live hI'] at this
+      omega
+    obtain ⟨out, hd, hpo, hpw, hol⟩ := drain_sorted T n h' hI' hlen
+    refine ⟨(i, k) :: out, .step hne hp (hperm.symm.subset (List.mem_cons_self ..)) hd,
+      (hpo.cons (i, k)).trans hperm.symm, List.Pairwise.cons ?_ hpw, by simp [hol]⟩
+    intro b hb
+    exact hmin b (hperm.symm.subset (List.mem_cons_of_mem _ (hpo.subset hb)))
+
+-- non-vacuity: a concrete non-trivial heap state satisfying `Inv` is exhibited by `reachable_inv` above (every
+-- operation sequence); `drain_sorted` applies to all of them.
+example {cmp : Cmp K} (T : Total cmp) (h : Heap K) (hI : Inv cmp h) :
+    ∃ out, DrainsTo cmp h out ∧ out.Perm (live h) ∧ out.Pairwise (fun a b => cmp.lt b.2 a.2 = false) := by
+  obtain ⟨out, a, b, c, _⟩ := drain_sorted T h.n h hI rfl
+  exact ⟨out, a, b, c⟩
+
+/-- … for the heap after ANY sequence of insertions, key decreases, removals and extractions -/
+theorem reachable_drain_sorted {cmp : Cmp K} (T : Total cmp) {s : St K} (hr : Reach cmp s) :
+    ∃ out : List (Nat × K), DrainsTo cmp s.h out ∧ out.Perm (live s.h) ∧
+      out.Pairwise (fun a b => cmp.lt b.2 a.2 = false) ∧ out.length = s.h.n :=
+  drain_sorted T s.h.n s.h (reachable_inv T hr).1 rfl
+
+/-- int keys, min-heap: the drain is ascending; max-heap (`ReversedComparator`): descending -/
+theorem drain_ascending_int {h : Heap Int} (hI : Inv intMin h) :
+    ∃ out : List (Nat × Int), DrainsTo intMin h out ∧ out.Perm (live h) ∧ out.Pairwise (fun a b => a.2 ≤ b.2) := by
+  obtain ⟨out, a, b, c, _⟩ := drain_sorted total_intMin h.n h hI rfl
+  exact ⟨out, a, b, c.imp (fun {x y} hxy => by simpa [intMin] using hxy)⟩
+
+theorem drain_descending_int {h : Heap Int} (hI : Inv intMax h) :
+    ∃ out : List (Nat × Int), DrainsTo intMax h out ∧ out.Perm (live h) ∧ out.Pairwise (fun a b => b.2 ≤ a.2) := by
+  obtain ⟨out, a, b, c, _⟩ := drain_sorted total_intMax h.n h hI rfl
+  exact ⟨out, a, b, c.imp (fun {x y} hxy => by simpa [intMax] using hxy)⟩
+
 end GtModel.C16
